@@ -31,45 +31,90 @@ def t_C02_Patterns():
     # the word alphabet used by find_boundaries_of_current_word
     import string
     body += "Definition word_alphabet : list Z :=\n  %s.\n" % zstr(string.ascii_letters + "0123456789_")
+    # the fields of the shared line cache object and the slots of Document (a new cached field must show
+    # up in the cache model: Proofs/C02_Patterns.v compares)
+    dc = getattr(m, "_DocumentCache", None)
+    try:
+        fields = list(vars(dc()).keys())
+        slots = list(m.Document.__slots__)
+    except Exception as e:  # noqa
+        sys.stderr.write("gen_t_c02: _DocumentCache / Document.__slots__ have an unexpected shape: %r\n" % (e,))
+        sys.exit(2)
+    if not all(isinstance(f, str) for f in fields + slots):
+        sys.stderr.write("gen_t_c02: non-string field names\n")
+        sys.exit(2)
+    body += "\nDefinition document_cache_fields : list (list Z) :=\n  [%s].\n" % "; ".join(zstr(f) for f in fields)
+    body += "Definition document_slots : list (list Z) :=\n  [%s].\n" % "; ".join(zstr(f) for f in slots)
     return emit("C02_Patterns", body)
 
 
-# Cased characters the C02 harness uses in ignore_case queries: all ASCII letters, letters whose
-# str.casefold() changes length (sharp s, dotted capital I, fi ligature, j-caron, iota with dialytika
-# and tonos) and other non-ASCII letters with regular or irregular simple folding.
+# re.IGNORECASE.  The table is regenerated over EVERY cased code point of the running CPython
+# (a character is cased when sre treats it as such, _sre.unicode_iscased, or str.lower/upper change
+# it): 2927 characters with unicodedata 15.0, 520 of them astral.  For each of them as an escaped
+# literal pattern character, the set of other characters of G = cased + FOLD_UNCASED it matches under
+# re.IGNORECASE is recorded; uncased characters of G must match exactly themselves (fail closed).
+# The harness generates ignore_case queries only over G (harness/c02.py: fold_ok).
 FOLD_EXTRA = "\u00e9\u00c9\u00df\u1e9e\u017f\u212a\u0131\u0130\u03c3\u03c2\u03a3\u00b5\u03bc\ufb01\ufb02\u01f0\u0390\u00fc\u00dc"
-FOLD_UNCASED = ".,_-()[] \n\t0\u754c\U0001F600"
+# every uncased character any C02 generator uses (texts, needles, brackets, blanks of every kind)
+FOLD_UNCASED = (".,_-()[]{}<>\"' \n\t\r\x0b\x0c\x1c\x1d\x1e\x1f\x85\u00a0\u1680\u2000\u2028\u2029\u202f\u205f\u3000"
+                "0123456789\u754c\U0001F600!#$%&*+/:;=?@\\^`|~")
 
 
-def fold_alphabet():
-    return [chr(c) for c in range(65, 91)] + [chr(c) for c in range(97, 123)] + list(FOLD_EXTRA)
+def cased_code_points():
+    import _sre
+    return [c for c in range(0x110000)
+            if not (0xD800 <= c <= 0xDFFF)
+            and (_sre.unicode_iscased(c) or chr(c).lower() != chr(c) or chr(c).upper() != chr(c))]
+
+
+_FOLD = None
+
+
+def fold_relation():
+    """(cased code points, pairs (pattern char, text char) with pattern != text that match)"""
+    global _FOLD
+    if _FOLD is not None:
+        return _FOLD
+    cased = cased_code_points()
+    cs = set(cased)
+    for u in FOLD_UNCASED:
+        if ord(u) in cs:
+            sys.stderr.write("gen_t_c02: %r listed as uncased is cased\n" % u)
+            sys.exit(2)
+    g = "".join(map(chr, cased)) + FOLD_UNCASED
+    pairs = []
+    for y in g:
+        hit = False
+        for m in re.compile(re.escape(y), re.IGNORECASE).finditer(g):
+            x = g[m.start()]
+            if m.end() - m.start() != 1:
+                sys.stderr.write("gen_t_c02: IGNORECASE match of %r is not one character\n" % y)
+                sys.exit(2)
+            if x == y:
+                hit = True
+            elif ord(y) in cs and ord(x) in cs:
+                pairs.append((ord(y), ord(x)))
+            else:
+                sys.stderr.write("gen_t_c02: uncased %r / %r match under IGNORECASE\n" % (y, x))
+                sys.exit(2)
+        if not hit:
+            sys.stderr.write("gen_t_c02: IGNORECASE not reflexive on %r\n" % y)
+            sys.exit(2)
+    _FOLD = (cased, pairs)
+    return _FOLD
 
 
 def t_C02_CaseFold():
     """the per-character relation of re.IGNORECASE between an escaped literal pattern character and a
-    text character, over fold_alphabet(); fail closed on its shape."""
-    al = fold_alphabet()
-    pairs = []
-    for p_ in al:
-        for t_ in al:
-            m = re.fullmatch(re.escape(p_), t_, re.IGNORECASE) is not None
-            if p_ == t_ and not m:
-                sys.stderr.write("gen_t_c02: IGNORECASE not reflexive on %r\n" % p_)
-                sys.exit(2)
-            if p_ != t_ and m:
-                pairs.append((ord(p_), ord(t_)))
-    for u in FOLD_UNCASED:
-        for t_ in al + list(FOLD_UNCASED):
-            if (re.fullmatch(re.escape(u), t_, re.IGNORECASE) is not None) != (u == t_) or \
-               (re.fullmatch(re.escape(t_), u, re.IGNORECASE) is not None) != (u == t_):
-                sys.stderr.write("gen_t_c02: uncased %r and %r match under IGNORECASE\n" % (u, t_))
-                sys.exit(2)
-    if not (52 <= len(pairs) <= 300) or (97, 65) not in pairs or (65, 97) not in pairs:
+    text character, over all cased code points; fail closed on its shape."""
+    cased, pairs = fold_relation()
+    if not (2000 <= len(pairs) <= 20000) or (97, 65) not in pairs or (65, 97) not in pairs or \
+       (0x1E9E, 0xDF) not in pairs or not all(ord(c) in set(cased) for c in FOLD_EXTRA):
         sys.stderr.write("gen_t_c02: unexpected fold table size %d\n" % len(pairs))
         sys.exit(2)
     body = "(* pairs (pattern char, text char), distinct, that match under re.IGNORECASE *)\n"
     body += "Definition c02_fold_pairs : list (Z * Z) :=\n  [%s].\n\n" % "; ".join("(%d, %d)" % q for q in pairs)
-    body += "Definition c02_fold_alphabet : list Z :=\n  %s.\n" % zlist(ord(c) for c in al)
+    body += "Definition c02_fold_alphabet : list Z :=\n  %s.\n" % zlist(cased)
     return emit("C02_CaseFold", body)
 
 
